@@ -13,6 +13,7 @@ import (
 	pgs "github.com/lyft/protoc-gen-star/v2"
 	"github.com/spf13/afero"
 	"google.golang.org/protobuf/proto"
+	descriptor "google.golang.org/protobuf/types/descriptorpb"
 	plugin_go "google.golang.org/protobuf/types/pluginpb"
 )
 
@@ -23,7 +24,7 @@ import (
 // os.Exit.  The fault plan (env VERIF_PLAN) says which step is made to fail.
 
 type c14In struct {
-	Input string     `json:"input"` // "", "readError", "garbage", "noTargets"
+	Input string     `json:"input"` // "", "readError", "garbage", "partial", "noTargets"
 	Arts  []artJ     `json:"arts"`
 	Procs []procJ    `json:"procs"`
 	FS0   []fileEntJ `json:"fs0"`
@@ -198,6 +199,15 @@ func (c14Engine) Run(raw json.RawMessage) (interface{}, error) {
 	switch in.Input {
 	case "garbage":
 		cmd.Stdin = bytes.NewReader(bytes.Repeat([]byte{0xff}, 16))
+	case "partial":
+		// well-formed wire data whose only defect is a missing required field
+		// (UninterpretedOption.NamePart.is_extension): still "unparsable input"
+		req := &plugin_go.CodeGeneratorRequest{}
+		_ = proto.Unmarshal(trivialRequest(""), req)
+		req.ProtoFile[0].Options = &descriptor.FileOptions{UninterpretedOption: []*descriptor.UninterpretedOption{{
+			Name: []*descriptor.UninterpretedOption_NamePart{{NamePart: proto.String("x")}}}}}
+		b, _ := proto.MarshalOptions{AllowPartial: true}.Marshal(req)
+		cmd.Stdin = bytes.NewReader(b)
 	case "noTargets":
 		req := &plugin_go.CodeGeneratorRequest{}
 		_ = proto.Unmarshal(trivialRequest(""), req)
@@ -294,7 +304,7 @@ func (c14Engine) Gen(g *Gen) {
 	}()
 	for _, run := range baseRuns {
 		emit(c14In{Arts: run}) // fault-free control
-		for _, inp := range []string{"readError", "garbage", "noTargets"} {
+		for _, inp := range []string{"readError", "garbage", "partial", "noTargets"} {
 			emit(c14In{Arts: run, Input: inp})
 		}
 		for _, out := range []string{"error", "short"} {
@@ -353,7 +363,7 @@ func (c14Engine) Gen(g *Gen) {
 			in.Out = pick(g.Rng, []string{"error", "short"})
 		}
 		if g.Rng.Intn(10) == 0 {
-			in.Input = pick(g.Rng, []string{"readError", "garbage", "noTargets"})
+			in.Input = pick(g.Rng, []string{"readError", "garbage", "partial", "noTargets"})
 		}
 		if g.Rng.Intn(3) == 0 {
 			in.Procs = []procJ{{Kinds: []int{0, 6}, Suffix: toB("<a>"), Fails: g.Rng.Intn(3) == 0}, {Kinds: []int{0, 6, 7}, Suffix: toB("<b>")}}
